@@ -8,8 +8,9 @@ from collections import Counter
 HARNESSES = [("http/tokenV2", ["http/tokenV2/zz_verif_c17_test.go", "http/tokenV2/zz_verif_export.go"], "c17"),
              ("auth/api/iam", ["auth/api/iam/zz_verif_c17_test.go", "http/tokenV2/zz_verif_export.go"], "c17jar"),
              ("vcr/verifier", ["vcr/verifier/zz_verif_c17_test.go", "http/tokenV2/zz_verif_export.go"], "c17vc"),
-             ("auth/services/oauth", ["auth/services/oauth/zz_verif_c17_test.go", "http/tokenV2/zz_verif_export.go"], "c17az")]
-TESTS = {"c17": "TestVerifC17", "c17jar": "TestVerifC17Jar", "c17vc": "TestVerifC17VcJwt", "c17az": "TestVerifC17AuthzV1"}
+             ("auth/services/oauth", ["auth/services/oauth/zz_verif_c17_test.go", "http/tokenV2/zz_verif_export.go"], "c17az"),
+             ("vcr/signature/proof", ["vcr/signature/proof/zz_verif_c17_test.go"], "c17ld")]
+TESTS = {"c17": "TestVerifC17", "c17jar": "TestVerifC17Jar", "c17vc": "TestVerifC17VcJwt", "c17az": "TestVerifC17AuthzV1", "c17ld": "TestVerifC17LdProof"}
 PKG, HARNESS = HARNESSES[0][0], HARNESSES[0][1]
 
 # classes of the generator for which NOTHING made a valid signature over the exact bytes, whatever the consumer
@@ -32,7 +33,7 @@ def verdict(c, cls, halg, by, res, allowed, env=None):
         return (cls, "accepted although " + NOBODY_SIGNED[cls])
     if cls.startswith("embed-jwk-priv") and c in ("dpop", "dagtx", "apitoken"):
         return ("embedded-private-jwk", "a token carrying a PRIVATE key in its jwk header was accepted")
-    if by == "attacker" and c in ("vcjwt", "jar", "authzv1"):
+    if by == "attacker" and c in ("vcjwt", "vcld", "jar", "authzv1"):
         return ("key-not-of-issuer", f"accepted although signed only by another party's key under that party's kid ({cls}): "
                 "the key does not come from the issuer's / client's own key material")
     if by == "attacker" and not (c in ("dpop", "dagtx") and cls == "embed-jwk-pub-attacker"):
@@ -53,7 +54,7 @@ def run(ctx):
     thms = ctx.build_and_audit(["NutsProofs.Props.C17"])
     required = ["allowed_lists_asymmetric", "accept_parseJWT", "accept_parseJWS", "accept_dpop", "accept_dagTx", "accept_dagTx_partial", "accept_dagTx_of_fact",
                 "fact_dag_rejects_private_jwk", "fact_dag_framing_body",
-                "accept_apiToken", "accept_jar", "accept_vcJwt", "accept_authzV1", "accept_ldProof", "fact_authzV1",
+                "accept_apiToken", "accept_jar", "accept_vcJwt", "accept_vcJsonLd", "fact_vcJsonLd", "fact_wiring", "accept_authzV1", "accept_ldProof", "fact_authzV1",
                 "authzV1_without_kid_check_accepts_foreign_key", "header_keys_ignored", "apiToken_key_header_rejected",
                 "parseJWS_splitCompact_mode_accepts_two_uncovered", "dagTx_without_private_check_accepts_private_jwk",
                 "apiToken_atLeastOne_rule_accepts_two_signatures",
@@ -76,7 +77,7 @@ def run(ctx):
         "model scope: crypto/jwx.go (JWTKidAlg, ParseJWT, ParseJWS), crypto/dpop/dpop.go (Parse up to the claim checks), network/dag/parser.go "
         "(ParseTransaction signature discipline; the other header steps are one verdict) + verifier.go (NewTransactionSignatureVerifier), "
         "http/tokenV2/middleware.go (whole decision), auth/api/iam/jar.go (validate), vcr/verifier/signature_verifier.go (jwtSignature), and vcr/signature/proof/jsonld.go (LDProof.Verify) — the last one "
-        "is modelled and proved about but has NO correspondence harness (its error exits and calls are pinned as regenerated facts)",
+        "is harnessed in-package with its own variant list (detached JWS header / signature / document / proof options / key handed in)",
     ]
     ctx.assumptions += [
         "SupportedAlgorithms is the default build's list (the jwx_es256k build tag appends ES256K at init)",
@@ -87,6 +88,7 @@ def run(ctx):
     allowed = {"parsejwt": facts.get("supportedAlgs", []), "parsejws": facts.get("supportedAlgs", []), "dpop": facts.get("supportedAlgs", []),
                "jar": facts.get("supportedAlgs", []), "vcjwt": facts.get("supportedAlgs", []),
                "authzv1": facts.get("supportedAlgs", []), "introspect": facts.get("supportedAlgs", []),
+               "ldproof": facts.get("keyDerivedAlgs", []), "vcld": facts.get("keyDerivedAlgs", []),
                "dagtx": facts.get("dagAllowedAlgs", []), "apitoken": (facts.get("apiPolicy") or {}).get("acceptableAlgs", [])}
     table = {}
     distinct = set()
@@ -98,8 +100,8 @@ def run(ctx):
     replay_c = None
     if ctx.replay:
         txt = open(ctx.replay).read()
-        replay_c = ("c17jar" if '"jar"' in txt else "c17vc" if '"vcjwt"' in txt else
-                    "c17az" if ('"authzv1"' in txt or '"introspect"' in txt) else "c17")
+        replay_c = ("c17jar" if '"jar"' in txt else "c17vc" if ('"vcjwt"' in txt or '"vcld"' in txt) else
+                    "c17az" if ('"authzv1"' in txt or '"introspect"' in txt) else "c17ld" if '"ldproof"' in txt else "c17")
     for (pkg, files, name) in HARNESSES:
         if replay_c and replay_c != name:
             continue
@@ -136,7 +138,8 @@ def run(ctx):
                 accepted_valid[c] += 1
             if cls == "reencoded" and line == "accept":
                 reenc[c] += 1
-            v = verdict(c, cls, op.get("halg", ""), op.get("by", ""), line, allowed, op.get("env"))
+            halg = op.get("halg", "") if c != "ldproof" else op.get("v", {}).get("keyalg", "")
+            v = verdict(c, cls, halg, op.get("by", ""), line, allowed, op.get("env"))
             # DAG transactions are content-addressed by their bytes: what is accepted must be a JSON serialisation or
             # byte-identical to the canonical compact serialisation (verdict computed by the harness's own re-encode-and-compare)
             if not v and c == "introspect" and line == "accept" and not op.get("v", {}).get("ownkey"):
@@ -166,7 +169,7 @@ def run(ctx):
         else:
             ctx.oblige(f"correspondence:{name}:model=impl", True, f"{len(impl)} lines equal")
     if not ctx.replay:
-        for c in ("parsejwt", "parsejws", "dpop", "dagtx", "apitoken", "jar", "vcjwt", "authzv1", "introspect"):
+        for c in ("parsejwt", "parsejws", "dpop", "dagtx", "apitoken", "jar", "vcjwt", "authzv1", "introspect", "ldproof", "vcld"):
             ctx.oblige(f"non-vacuous:{c}-accepts-its-valid-token(impl)", accepted_valid[c] > 0, str(dict(accepted_valid)))
 
     ctx.cov["evaluations"] = total
